@@ -22,6 +22,12 @@ CHECKS = {
  "C04": dict(level="exploration", design="§4 C04",
    text="Seeded monitoring of encoder.Encode under all 512 option sets (visited round-robin): values without a JSON representation (cycles through pointers/maps/slices/interfaces, chan, func, complex, invalid json.Number) must error under every set; pure random types must yield exactly one well-formed value (valid UTF-8 under ValidateString, no raw <>& under EscapeHTML) that decodes back, with encoding/json and with sonic, to what encoding/json's own round trip gives (float bits, ints, strings, containers; nil slices/maps made empty first under NoNullSliceOrMap); NaN/Inf must error unless EncodeNullForInfOrNan; catalogue types with marshalers are checked for well-formedness.",
    technique="runtime oracle: json.Valid + reference parser + round trip through two decoders; exhaustive over the 2^9 option sets, seeded over values"),
+ "C09": dict(level="exploration", design="§4 C09",
+   text="History monitoring across fresh processes: every worker process is one history; all processes of a run execute the same probe list (ConfigStd.Marshal by value/pointer/inside interfaces and Unmarshal into fresh and pre-populated destinations over ~45 history-sensitive types - distinct types that print identically (same package base name, function-local types), recursive and mutually recursive types, structs nested beyond the inline depth, >50 fields, embedding, non-empty interfaces, pointer-receiver marshalers, every omitempty kind - plus seeded random types) after different preludes: shuffled/reversed order, pointer-before-value and reverse, decode-before-encode and reverse, PretouchMany of all probe types in one module or in random chunks with MaxInlineDepth in {1,2,3,4,10} and RecursiveDepth in {0,1,2,5}, Pretouch one by one over random subsets, pointer types first, 2100/4400 throw-away types through the encoder and decoder caches (one and two rehashes), probes interleaved with throw-away types and Pretouch of later probe types. Oracle: every probe's digest equals the baseline history's (no prelude, list order; its agreement with encoding/json is counted); in every process each probe is executed a second time after a collection and must repeat its result. jit, vm+optdec and sse processes.",
+   technique="cross-process runtime monitoring: offline comparison of per-probe result digests recorded in fresh processes after different histories (baseline vs preludes), plus an in-process repeat-call monitor"),
+ "C10": dict(level="exploration", design="§4 C10",
+   text="Runtime-cooperation monitoring with the Go runtime's own self-checks as the sanitizer: the same seeded case list (Marshal + decode-back and Unmarshal over 16 callback types - TextMarshaler/TextUnmarshaler map keys of three shapes, json.Marshaler/Unmarshaler with value and pointer receivers, omitzero fields, a struct mixing them with every pointer-carrying field shape - and over random types of the C01/C03 generators) runs in a calm process and in stressed processes: GOGC=1 + GODEBUG=gccheckmark=1,clobberfree=1 + a collector goroutine; SIGPROF at 4000 Hz + all-goroutine stack dumps every 300us; SONIC_SYNC_GC=1 in decode-only processes. Every call runs on a fresh goroutine after 0-110 padding frames; every callback invoked from generated code performs a seeded action (GC; GC+allocation churn that recycles freed slots; 3000-frame recursion = stack copy with generated frames live; debug.Stack/Callers/Stack(all); hand-off collection while parked; nested sonic call). Oracles: worker death (runtime fatal errors, faults) with the running case recorded; per-case digests equal to the calm process'; the last 40 decoded destinations and outputs re-read after later collections; every encoded value encoded again ~40 cases later must give the same text.",
+   technique="runtime sanitizer monitoring (Go GC debug checks gccheckmark/clobberfree, forced collections, stack growth/copy/shrink, tracebacks and SIGPROF through generated frames) in crash-isolated child processes + cross-process digest diff vs a calm process + retention/re-encode monitors"),
  "C11": dict(level="exploration", design="§4 C11",
    text="Cross-process equivalence monitoring: the C01 case list is decoded in three processes (jitdec, SONIC_USE_OPTDEC=1, +SONIC_USE_FASTMAP=1) and per-case digests (error-or-not + canonical deep dump) are compared for every json.Valid document; all processes must reject structurally malformed documents. The verif bridge reports the implementation really in use.",
    technique="cross-process digest diff over a shared seeded case list (runtime monitoring of both implementations); bridge-reported configuration"),
